@@ -246,27 +246,41 @@ func c09Retransmit(c *h.Ctx, d *c17Daemon, prod *c17Face, waitFor func(*c17Face,
 // face) send their first datagrams - /localhost Interests of equal length - back to back. The
 // local peer's Interest must reach the local producer, the non-local peer's must not.
 func c09UDPAccept(c *h.Ctx, d *c17Daemon, prod *c17Face, waitFor func(*c17Face, enc.Name, bool, *[][]byte) bool) {
+	c09UDPAcceptFam(c, d, prod, waitFor, 4)
+	c09UDPAcceptFam(c, d, prod, waitFor, 6)
+}
+
+// c09UDPAcceptFam runs the scenario for one address family (4 or 6).
+func c09UDPAcceptFam(c *h.Ctx, d *c17Daemon, prod *c17Face, waitFor func(*c17Face, enc.Name, bool, *[][]byte) bool, fam int) {
 	host := ""
+	network, loop, anyAddr := "udp4", "127.0.0.1", "0.0.0.0"
+	if fam == 6 {
+		network, loop, anyAddr = "udp6", "::1", "::"
+	}
 	if as, err := net.InterfaceAddrs(); err == nil {
 		for _, a := range as {
-			if ipn, ok := a.(*net.IPNet); ok && ipn.IP.To4() != nil && !ipn.IP.IsLoopback() {
+			ipn, ok := a.(*net.IPNet)
+			if !ok || ipn.IP.IsLoopback() || ipn.IP.IsLinkLocalUnicast() {
+				continue
+			}
+			if (fam == 4) == (ipn.IP.To4() != nil) {
 				host = ipn.IP.String()
 				break
 			}
 		}
 	}
 	if host == "" {
-		c.Note("udp_accept", "this host has no non-loopback IPv4 address: the UDP listener scenario did not run")
+		c.Note(fmt.Sprintf("udp%d_accept", fam), "this host has no non-loopback address of this family: the UDP listener scenario did not run for it")
 		return
 	}
-	probe, err := net.ListenPacket("udp4", "0.0.0.0:0")
+	probe, err := net.ListenPacket(network, net.JoinHostPort(anyAddr, "0"))
 	if err != nil {
 		c.Note("udp_accept", "cannot find a free UDP port: "+err.Error())
 		return
 	}
 	port := probe.LocalAddr().(*net.UDPAddr).Port
 	probe.Close()
-	ln, err := face.MakeUDPListener(defn.MakeUDPFaceURI(4, "0.0.0.0", uint16(port)))
+	ln, err := face.MakeUDPListener(defn.MakeUDPFaceURI(fam, anyAddr, uint16(port)))
 	if err != nil {
 		c.Note("udp_accept", "cannot make the UDP listener: "+err.Error())
 		return
@@ -275,16 +289,16 @@ func c09UDPAccept(c *h.Ctx, d *c17Daemon, prod *c17Face, waitFor func(*c17Face, 
 	defer ln.Close()
 	time.Sleep(50 * time.Millisecond)
 	for k := 0; k < c.Pick(30, 300); k++ {
-		id := fmt.Sprintf("lifecycle/udp%d", k)
+		id := fmt.Sprintf("lifecycle/udp%d-%d", fam, k)
 		c.Eval(1)
-		la, err1 := net.DialUDP("udp4", &net.UDPAddr{IP: net.ParseIP("127.0.0.1")}, &net.UDPAddr{IP: net.ParseIP("127.0.0.1"), Port: port})
-		lb, err2 := net.DialUDP("udp4", &net.UDPAddr{IP: net.ParseIP(host)}, &net.UDPAddr{IP: net.ParseIP(host), Port: port})
+		la, err1 := net.DialUDP(network, &net.UDPAddr{IP: net.ParseIP(loop)}, &net.UDPAddr{IP: net.ParseIP(loop), Port: port})
+		lb, err2 := net.DialUDP(network, &net.UDPAddr{IP: net.ParseIP(host)}, &net.UDPAddr{IP: net.ParseIP(host), Port: port})
 		if err1 != nil || err2 != nil {
 			c.Note("udp_accept", fmt.Sprintf("cannot open the peers' sockets: %v %v", err1, err2))
 			return
 		}
-		na, _ := enc.NameFromStr(fmt.Sprintf("/localhost/c09p/udp-local-%04d", k))
-		nb, _ := enc.NameFromStr(fmt.Sprintf("/localhost/c09p/udp-remot-%04d", k))
+		na, _ := enc.NameFromStr(fmt.Sprintf("/localhost/c09p/udp%d-local-%04d", fam, k))
+		nb, _ := enc.NameFromStr(fmt.Sprintf("/localhost/c09p/udp%d-remot-%04d", fam, k))
 		wa, wb := tlvwalk.TLV(5, d.interestBody(na, false)), tlvwalk.TLV(5, d.interestBody(nb, false))
 		d.log = append(d.log, fmt.Sprintf("%s: new UDP peers %s (loopback) and %s (non-loopback) send first datagrams %s / %s", id, la.LocalAddr(), lb.LocalAddr(), na, nb))
 		var keep [][]byte
@@ -295,7 +309,7 @@ func c09UDPAccept(c *h.Ctx, d *c17Daemon, prod *c17Face, waitFor func(*c17Face, 
 			lb.Write(wb)
 			la.Write(wa)
 		}
-		c.Count("udp_first_datagram_pairs", 1)
+		c.Count(fmt.Sprintf("udp%d_first_datagram_pairs", fam), 1)
 		okA := waitFor(prod, na, false, &keep)
 		time.Sleep(10 * time.Millisecond)
 		sawB := c09Saw(prod, nb, false, &keep)
@@ -309,6 +323,6 @@ func c09UDPAccept(c *h.Ctx, d *c17Daemon, prod *c17Face, waitFor func(*c17Face, 
 			d.fail("C09:local-localhost-exchange-broken", id, fmt.Sprintf("the /localhost Interest %s sent as first datagram by the loopback UDP peer %s never reached the local producer", na, la.LocalAddr()), map[string]any{"commands": d.log[max(0, len(d.log)-6):]})
 			return
 		}
-		c.Distinct("lifecycle|udp-accept")
+		c.Distinct(fmt.Sprintf("lifecycle|udp%d-accept", fam))
 	}
 }
